@@ -548,7 +548,10 @@ class Sym:
 
 def _freeze(i):
     if isinstance(i, slice):
-        return ('slice', _freeze(i.start), _freeze(i.stop), _freeze(i.step))
+        # one spelling: [0:k] == [:k], [a:b:1] == [a:b]
+        start = None if (isinstance(i.start, int) and not isinstance(i.start, bool) and i.start == 0) else i.start
+        step = None if (isinstance(i.step, int) and not isinstance(i.step, bool) and i.step == 1) else i.step
+        return ('slice', _freeze(start), _freeze(i.stop), _freeze(step))
     if isinstance(i, (tuple, list)):
         return tuple(_freeze(x) for x in i)
     if i is Ellipsis:
@@ -1349,10 +1352,13 @@ def jnp_reshape(a, shape):
             tgt.append(s.name)
         else:
             tgt.append(s)
-    # two adjacent named axes (A, C) merged into one axis of extent |A| * |C| (A major): a repetition of the rows of A when the
-    # tensor is constant along C (broadcast_to + reshape == repeat), a tiling when it is constant along A, a product otherwise
-    core_t = [x for x in tgt if x != 1]
-    if len(core_t) == len(src) - 1:
+    def merge_adjacent(tgt):
+        """two adjacent named axes (A, C) merged into one axis of extent |A| * |C| (A major): a repetition of the rows of A when
+        the tensor is constant along C (broadcast_to + reshape == repeat), a tiling when it is constant along A, a product
+        otherwise"""
+        core_t = [x for x in tgt if x != 1]
+        if len(core_t) != len(src) - 1:
+            return None
         for k in range(len(src) - 1):
             A, C = src[k], src[k + 1]
             if isinstance(A, str) and isinstance(C, str) and k < len(core_t) and isinstance(core_t[k], str) \
@@ -1365,8 +1371,12 @@ def jnp_reshape(a, shape):
                     merged = f"Tile({C},{A})"
                 else:
                     merged = f"Prod({A},{C})"
-                new_axes = [merged if x == core_t[k] and i == tgt.index(core_t[k]) else x for i, x in enumerate(tgt)]
+                new_axes = [merged if x == core_t[k] and i_ == tgt.index(core_t[k]) else x for i_, x in enumerate(tgt)]
                 return AT(tuple(new_axes), a.data.reshape(tuple(x for x in new_axes if isinstance(x, int))))
+        return None
+    r_ = merge_adjacent(tgt)
+    if r_ is not None:
+        return r_
     if -1 in tgt:
         if tgt == [-1]:
             if len(src) == 1:
@@ -1377,6 +1387,22 @@ def jnp_reshape(a, shape):
                 raise Top(f"flatten of rows x columns {a.axes}")
             else:
                 raise Top(f"flatten of symbolic tensor {a.axes}")
+        elif tgt.count(-1) == 1 and len([x for x in src if not isinstance(x, int)]) == 2:
+            # -1 standing for the product of two adjacent named axes: name it through the general merging rule below
+            k = tgt.index(-1)
+            named_pos = [i for i, x in enumerate(src) if not isinstance(x, int)]
+            if named_pos[1] == named_pos[0] + 1:
+                A, C = src[named_pos[0]], src[named_pos[1]]
+                ext = axis_extent(A) * axis_extent(C)
+                nm = str(ext)
+                AXIS_EXTENT.setdefault(nm, ext)
+                tgt = [nm if x == -1 else x for x in tgt]
+                r_ = merge_adjacent(tgt)
+                if r_ is not None:
+                    return r_
+                raise Top("reshape with -1 on a symbolic tensor")
+            else:
+                raise Top("reshape with -1 on a symbolic tensor")
         else:
             named = [x for x in src if not isinstance(x, int)]
             conc_src = [x for x in src if isinstance(x, int)]
